@@ -189,8 +189,8 @@ class SocketServer_Multiplex(object):
         except Exception:
             # other error occurred, close the connection, but also log a warning
             ex_t, ex_v, ex_tb = sys.exc_info()
-            tb = errors.format_traceback(ex_t, ex_v, ex_tb)
             try:
+                tb = errors.format_traceback(ex_t, ex_v, ex_tb)
                 msg = "error during handleRequest: %s; %s" % (ex_v, "".join(tb))
             except Exception:
                 # (the exception cannot even be turned into text: that must not take the server loop down)
